@@ -107,6 +107,22 @@ pub trait Property: Sync {
     }
 }
 
+/// evidence samples show what a case looks like; long payload strings are cut
+fn shorten(v: &Value) -> Value {
+    match v {
+        Value::String(s) if s.len() > 240 => Value::String(format!("{}...({} chars)", s.chars().take(160).collect::<String>(), s.len())),
+        Value::Array(a) => {
+            let mut out: Vec<Value> = a.iter().take(40).map(shorten).collect();
+            if a.len() > 40 {
+                out.push(Value::String(format!("...({} more items)", a.len() - 40)));
+            }
+            Value::Array(out)
+        }
+        Value::Object(m) => Value::Object(m.iter().map(|(k, x)| (k.clone(), shorten(x))).collect()),
+        other => other.clone(),
+    }
+}
+
 pub fn verif_seed() -> u64 {
     std::env::var("VERIF_SEED")
         .ok()
@@ -323,14 +339,14 @@ pub fn run_check(prop: &dyn Property, tier: Tier) -> i32 {
             let fresh = distinct.insert(hash_str(&out.signature));
             if fresh && samples.len() < 3 && !sc.is_null() {
                 let t: Vec<&String> = out.trace.iter().take(60).collect();
-                samples.push(json!({"index": i, "scenario": sc, "trace_head": t}));
+                samples.push(json!({"index": i, "scenario": shorten(sc), "trace_head": t}));
             }
         }
     }
     if samples.is_empty() {
         if let Some((i, sc, out)) = results.iter().find(|r| r.2.skipped.is_none() && !r.1.is_null()) {
             let t: Vec<&String> = out.trace.iter().take(60).collect();
-            samples.push(json!({"index": i, "scenario": sc, "trace_head": t}));
+            samples.push(json!({"index": i, "scenario": shorten(sc), "trace_head": t}));
         }
     }
 
